@@ -16,6 +16,8 @@ The model mirrors the REPAIRED code (fixes/C07-*.diff):
   also takes `""` for failure, dammit.py:817);
 * `declared_html_encoding` looks for the declaration on demand (unrepaired: `None` unless the
   generator was driven as far as the declaration step, dammit.py:986);
+* a document that is empty after its byte-order mark is decoded only by names that are text encodings
+  (unrepaired: by any name, `str(b"", name)` never consults the codec — see `withEmptyFastPath`);
 * a UTF-16 byte-order mark is recognised whatever follows it except `00 00` (unrepaired: only when
   at least four bytes are present, so `b"\xff\xfe"` alone decoded as windows-1252 "ÿþ").
 
@@ -53,6 +55,18 @@ structure Codecs where
       BOM-stripped bytes. With none of them installed (`chardet_module is None`, the situation of this
       repository's environment) it is `fun _ => none`. -/
   chardet : Bytes → Option Name := fun _ => none
+
+/-- CPython's `str(b"", name, errors)` returns `""` WITHOUT looking `name` up. The unrepaired `_to_unicode`
+    (dammit.py, `return str(data, encoding, errors)`) therefore "decoded" a document that is empty after its
+    byte-order mark under ANY name — unknown, not a text encoding, always failing — and that name became
+    `original_encoding`. The repaired `_to_unicode` asks the codec first (`"".encode(encoding)`), so
+    `decodeStrict`/`decodeReplace` of the model mean for the empty byte string what they mean for every other:
+    the name is a text encoding whose decoder accepts the bytes. `withEmptyFastPath C` is the oracle the
+    UNREPAIRED code effectively saw; kept for the witness `Props.C07.old_empty_remainder_took_any_name`. -/
+def withEmptyFastPath (C : Codecs) : Codecs :=
+  { C with
+    decodeStrict := fun n d => if d.isEmpty then some [] else C.decodeStrict n d
+    decodeReplace := fun n d => if d.isEmpty then some [] else C.decodeReplace n d }
 
 /-- Laws of CPython's codec machinery that the totality statements rest on. They are HYPOTHESES of those
     theorems (never axioms); the harness tests each of them on every case's data with the real codecs:
